@@ -396,12 +396,31 @@ def pkg_name(eid, fmt):
 
 def veneer_yaml(entry, pkg):
     """The builder transformations of a catalogue entry as a cog veneers file (language: all)."""
-    builders, options = [], []
+    builders, options, flavour_inits, flavoured = [], [], [], []
     for r in entry["rules"]:
         if r["k"] == "ctor":
             builders.append("  - promote_options_to_constructor:\n      by_object: %s\n      options: [%s]\n" % (r["obj"], ", ".join(r["fields"])))
         elif r["k"] == "unfold":
             options.append("  - struct_fields_as_options:\n      by_name: %s.%s\n      fields: [%s]\n" % (r["obj"], r["field"], ", ".join(r["fields"])))
+        elif r["k"] == "flavour":
+            # several builders for one object: duplicate + initialize; the original builder is omitted after the last flavour
+            builders.append("  - duplicate:\n      by_name: %s\n      as: %s\n      exclude_options: [%s]\n" % (r["obj"], r["field"], r["fields"][0]))
+            flavour_inits.append("  - initialize:\n      by_name: %s\n      set:\n        - {property: %s, value: %s}\n" % (r["field"], r["fields"][0], r["fields"][1]))
+            if r["obj"] not in flavoured:
+                flavoured.append(r["obj"])
+        elif r["k"] == "disj":
+            # natural option names are the branch names (Go: field of the union struct, python: lowerCamelCase of the type)
+            S = entry["S"]
+            et = unwrap(S, unwrap(S, field_of(S[r["obj"]], r["field"])["t"])["t"])
+            options.append("  - array_to_append:\n      by_name: %s.%s\n" % (r["obj"], r["field"]))
+            options.append("  - disjunction_as_options:\n      by_name: %s.%s\n" % (r["obj"], r["field"]))
+            # Go's builder for the struct that stands for the union is not part of this API (one option per branch instead)
+            om = "  - omit:\n      by_name: %s\n" % "Or".join(et["refs"])
+            if om not in builders:
+                builders.append(om)
+            for ref, name in zip(et["refs"], r["fields"]):
+                if norm_name(ref) != norm_name(name):
+                    options.append("  - rename:\n      by_name: %s.%s\n      as: %s\n" % (r["obj"], ref, name))
         elif r["k"] == "args":
             options.append("  - struct_fields_as_arguments:\n      by_name: %s.%s\n      fields: [%s]\n" % (r["obj"], r["field"], ", ".join(r["fields"])))
         elif r["k"] == "append":
@@ -410,6 +429,9 @@ def veneer_yaml(entry, pkg):
             options.append("  - map_to_index:\n      by_name: %s.%s\n" % (r["obj"], r["field"]))
         else:
             raise core.Inconclusive("unknown builder rule %r" % (r,))
+    for obj in flavoured:
+        builders.append("  - omit:\n      by_name: %s\n" % obj)
+    builders += flavour_inits
     y = "language: all\npackage: %s\n" % pkg
     if builders:
         y += "builders:\n" + "".join(builders)
@@ -823,15 +845,20 @@ def bind(entry, u, lang):
             if len(hit) != 1:
                 raise BindError("%s builder %s: %d options named %s" % (lang, key, len(hit), so["name"]))
             io = dict(hit[0])
-            # same assignments (path, method), in any order (JSON Schema sorts properties, CUE keeps them)
-            if sorted((a["path"], a["method"]) for a in io["asgs"]) != sorted((a["path"], a["m"]) for a in so["asgs"]) or len(io["args"]) != len(so["args"]):
-                raise BindError("%s builder %s option %s: IR assignments %s differ from the derived %s" % (
+            if len(io["args"]) != len(so["args"]) or len(io["asgs"]) != len(so["asgs"]):
+                raise BindError("%s builder %s option %s: %d argument(s) / %d assignment(s) in the IR, derived %d / %d" % (
+                    lang, key, so["name"], len(io["args"]), len(io["asgs"]), len(so["args"]), len(so["asgs"])))
+            # The EXPECTED targets are the derived ones ("one assignment per option derived from the field path"); where cog's IR
+            # carries other paths the generated code is judged against the derivation (exact-target), the difference is listed.
+            if sorted((a["path"], a["method"]) for a in io["asgs"]) != sorted((a["path"], a["m"]) for a in so["asgs"]):
+                u.setdefault("ir_differs_from_derivation", []).append("%s %s.%s: IR %s, derived %s" % (
                     lang, key, so["name"], [(a["path"], a["method"]) for a in io["asgs"]], [(a["path"], a["m"]) for a in so["asgs"]]))
             # position of the specification's argument j in the generated signature
             names = [a["name"] for a in io["args"]]
             argpos = {}
-            for sa in so["asgs"]:
-                ia = [a for a in io["asgs"] if a["path"] == sa["path"]][0]
+            for n_, sa in enumerate(so["asgs"]):
+                same = [a for a in io["asgs"] if a["path"] == sa["path"]]
+                ia = same[0] if same else io["asgs"][n_]
                 if ia["arg"] not in names or (sa["key"] and ia["key"] not in names):
                     raise BindError("%s builder %s option %s: assignment %s is not fed by an argument" % (lang, key, so["name"], ia["path"]))
                 argpos[sa["src"]] = names.index(ia["arg"])
@@ -844,7 +871,8 @@ def bind(entry, u, lang):
         if [a["path"] for a in cargs] != [a["path"] for a in sb["ctor"]["asgs"]]:
             raise BindError("%s builder %s: constructor arguments %s differ from the derived %s" % (
                 lang, key, [a["path"] for a in cargs], [a["path"] for a in sb["ctor"]["asgs"]]))
-        out[key] = {"ir": irb, "opts": opts, "ctor": ctor}
+        out[key] = {"ir": irb, "opts": opts, "ctor": ctor,
+                    "alts": [b for b in ir if norm_name(b["object"]) == norm_name(irb["object"]) and b is not irb]}
         if lang == "go":
             g = u["glue"].get(norm_name(irb["name"]))
             if g is None:
@@ -965,14 +993,29 @@ class Planner:
             val = v[f] if f in v else D[key].get(f)
             new.append(self.arg(arg["shape"], key + "." + f, ft, val))
         calls = []
-        for mk, x in v.items():
-            f = field_of(t, mk)
-            if f is None or f["t"]["k"] == "const" or mk in promoted:
-                continue
-            hit = [o for o in irb["options"] if norm_name(o["name"]) == norm_name(mk)]
-            if len(hit) != 1 or len(hit[0]["args"]) != 1:
-                raise BindError("builder %s: no single-argument option for member %s" % (irb["name"], mk))
-            calls.append({"opt": self.opt_name(irb, hit[0]), "args": [self.arg(hit[0]["args"][0]["shape"], key + "." + mk, f["t"], x)]})
+        sb = self.e["B"].get(key)
+
+        def calls_for(prefix, st, skey, val):
+            for mk, x in val.items():
+                f = field_of(st, mk)
+                if f is None or f["t"]["k"] == "const" or (not prefix and mk in promoted):
+                    continue
+                path = prefix + [mk]
+                names = [o["name"] for o in (sb["opts"] if sb else []) if len(o["asgs"]) == 1 and o["asgs"][0]["path"] == path and o["asgs"][0]["m"] == "direct"]
+                if not sb and not prefix:
+                    names = [mk]
+                hit = [o for o in irb["options"] if names and norm_name(o["name"]) == norm_name(names[0])]
+                if len(hit) == 1 and len(hit[0]["args"]) == 1:
+                    calls.append({"opt": self.opt_name(irb, hit[0]), "args": [self.arg(hit[0]["args"][0]["shape"], skey + "." + mk, f["t"], x)]})
+                    continue
+                ckey, ct = as_struct(self.S, skey + "." + mk, f["t"])
+                if isinstance(x, dict) and ct["k"] == "struct":
+                    # the member's own option was unfolded into options of its fields (struct fields as options)
+                    calls_for(path, ct, ckey, x)
+                    continue
+                raise BindError("builder %s: no single-argument option for member %s" % (irb["name"], ".".join(path)))
+
+        calls_for([], t, key, v)
         return {"type": self.type_name(irb), "new": new, "calls": calls}
 
     def root_command(self, root_key, seq, ctor_vals=None):
@@ -1023,19 +1066,23 @@ def default_commands(entry, u, lang, bound):
         c = pl.root_command(key, [], ctor_vals=vals)
         c["ctor_in_seq"] = False
         cmds[key] = c
+        for alt in bound[key].get("alts", []):
+            if any(a["arg"] for a in alt["ctor"]["asgs"]):
+                continue
+            cmds["%s@%s" % (key, alt["name"])] = {"pkg": u["pkg"], "type": pl.type_name(alt), "new": [], "calls": [], "ctor_in_seq": False}
     return cmds
 
 
 # ----------------------------------------------------------------------------------------------
 # the common batch for C09 / C14
 # ----------------------------------------------------------------------------------------------
-def run_bbatch(ctx, ids=None, formats=FORMATS, converters=False, python=True):
+def run_bbatch(ctx, ids=None, formats=FORMATS, converters=False, python=True, c09_only=False):
     if ctx.worker is None:
         ctx.build_worker()
     b = BBatch()
     b.converters, b.python = converters, python
     b.cat = load_index(ctx)
-    b.ids = sorted(b.cat) if ids is None else sorted(ids)
+    b.ids = sorted(i for i in b.cat if c09_only is False or b.cat[i]["c09"]) if ids is None else sorted(ids)
     generate(ctx, b, formats)
     build(ctx, b)
     langs = LANGS if python else ("go",)
